@@ -6,6 +6,10 @@ GEN_FUNCS = "assembleSourceID,disassembleSourceID,assembleOffset,disassembleOffs
 
 
 # ---------------------------------------------------------------- regenerated tie
+def _repo():
+    return os.environ.get("VERIF_REPO", "/repo")
+
+
 def regen_kafkapack(root):
     """Delete the stale Gen file, translate the four packing functions of /repo's working tree
     with harness/cmd/go2lean and write the new file. Anything go2lean cannot translate is an error
@@ -15,7 +19,7 @@ def regen_kafkapack(root):
     tool = os.path.join(root, "bin", "go2lean")
     os.makedirs(os.path.join(root, "bin"), exist_ok=True)
     if not os.path.exists(os.path.join(harness, "go.sum")):
-        shutil.copyfile("/repo/go.sum", os.path.join(harness, "go.sum"))
+        shutil.copyfile(os.path.join(_repo(), "go.sum"), os.path.join(harness, "go.sum"))
     p = subprocess.run(["go", "build", "-o", tool, "./cmd/go2lean"], cwd=harness, env=env,
                        stdout=subprocess.PIPE, stderr=subprocess.PIPE, timeout=900)
     if p.returncode != 0:
@@ -27,7 +31,7 @@ def regen_kafkapack(root):
     tmp = out + ".tmp"
     if os.path.exists(tmp):
         os.remove(tmp)
-    p = subprocess.run([tool, "-repo", "/repo", "-file", "plugin/input/kafka/kafka.go", "-funcs", GEN_FUNCS,
+    p = subprocess.run([tool, "-repo", _repo(), "-file", "plugin/input/kafka/kafka.go", "-funcs", GEN_FUNCS,
                         "-ns", "FileD.Gen.KafkaPack", "-out", tmp], env=env,
                        stdout=subprocess.PIPE, stderr=subprocess.PIPE, timeout=300)
     if p.returncode == 0 and os.path.exists(tmp):
@@ -151,6 +155,23 @@ def _observations(c, i):
             ms, tok = _marks(tok)
             obs.append((list(range(len(recs))), recs, set(acked), list(acked), ms))
         return obs
+    if c[0] == "c10.start":
+        nt = int(c[1])
+        n = int(c[2 + nt])
+        recs, rest = _recs(c[3 + nt:], n, 0)
+        order = [int(x) for x in rest[1:1 + int(rest[0])]]
+        if not i or not i[0].isdigit() or int(i[0]) != n:
+            return None
+        tok = i[1 + 2 * n:]
+        if int(tok[0]) != len(order):
+            return None
+        tok = tok[1:]
+        acked = []
+        for k in order:
+            acked = acked + [k]
+            ms, tok = _marks(tok)
+            obs.append((list(range(len(recs))), recs, set(acked), list(acked), ms))
+        return obs
     if c[0] == "c10.pipe":
         n = int(c[5])
         recs, _ = _recs(c[6:], n, 1)
@@ -221,6 +242,8 @@ def c10_nontrivial(c, i):
         return len(i) > 1 and i[0].isdigit() and int(i[0]) >= 1
     if c[0] == "c10.pipe":
         return "ack" in i
+    if c[0] == "c10.start":
+        return len(i) > 1 and i[0].isdigit() and int(i[0]) >= 1
     return False
 
 
@@ -233,6 +256,13 @@ def c10_classify(c, i):
         out.append("marks:records=" + ("1" if n == 1 else "2-4" if n <= 4 else "5+"))
         if i and i[0].startswith("panic"):
             out.append("marks:panic")
+    elif c[0] == "c10.start":
+        nt = int(c[1])
+        names = c[2:2 + nt]
+        out.append("start:topics=" + str(nt))
+        out.append("start:" + ("duplicate-topics" if len(set(names)) < nt else "distinct-topics"))
+        out.append("start:distinct-names=" + str(len(set(names))))
+        if i and not i[0].isdigit(): out.append("start:" + i[0])
     elif c[0] == "c10.pipe":
         out.append("pipe:procs=" + c[1])
         out.append("pipe:" + ("async" if c[2] == "1" else "sync"))
@@ -248,7 +278,7 @@ def c10_classify(c, i):
 
 CFG = {
     "manifest": {
-        "text": "Proof: Lean theorems (Props/C10.lean). pack_roundtrip is proved, kernel-only over BitVec, about definitions regenerated from kafka.go's AST on every run (go2lean): unpacking a packed (topic index < 2^48, partition < 2^16, offset < 2^47, epoch < 2^16) gives the record's own topic/partition/epoch and offset+1. On a transition system of the spread pipeline (records -> streams -> output -> Commit -> max-keeping marks) every mark is an acknowledged record's own (mark_at_most_one_past_consumed), and no mark passes an unfinished record when acknowledgements are in consumption order per partition / with one processor and an in-order output (mark_never_passes_unfinished_partial). The full statement is false of the code: MarkNeverPassesUnfinished_counterexample (two records, two processors), recorded as known finding C10-spread-reorder and reproduced on the real pipeline.",
+        "text": "Proof: Lean theorems (Props/C10.lean). pack_roundtrip is proved, kernel-only over BitVec, about definitions regenerated from kafka.go's AST on every run (go2lean): unpacking a packed (topic index < 2^48, partition < 2^16, offset < 2^47, epoch < 2^16) gives the record's own topic/partition/epoch and offset+1. On a transition system of the spread pipeline (records -> streams -> output -> Commit -> max-keeping marks) every mark is an acknowledged record's own (mark_at_most_one_past_consumed), and no mark passes an unfinished record when acknowledgements are in consumption order per partition / with one processor and an in-order output (mark_never_passes_unfinished_partial). start_commit_own_topic: for every configured topic list, duplicates included, the id Start assigns resolves in Commit to the record's own topic. The full statement is false of the code: MarkNeverPassesUnfinished_counterexample (two records, two processors), recorded as known finding C10-spread-reorder and reproduced on the real pipeline.",
         "note": "Trusted: Lean kernel + standard axioms; fdmodel compilation; go2lean (cross-checked against the real functions on every run); harness; franz-go keeps the maximum mark and (AutoCommitMarks) commits marks only; the broker delivers a partition in increasing offset order. The client is offline: what is observed is the marked head, not a broker-side commit.",
         "technique": "Lean 4 proof (BitVec algebra on regenerated definitions + inductive invariant over op lists) + differential correspondence: real packing functions, real Plugin.Commit on an offline kgo client, real pipeline in spread mode with a scheduled output",
     },
@@ -263,8 +293,8 @@ CFG = {
     "classify": c10_classify,
     "signatures": {"c10_spread_reorder": c10_spread_reorder},
     "trace": True,
-    "rule": "c10.pack: boundary grid of (index, partition, offset, epoch) in and around the packing ranges plus random values of random bit length and full-range values; c10.marks: every commit order of every subset of 1..4 (thorough 5) records of one partition, then random record sets over 1-4 partitions committed in consumption order / with adjacent swaps / shuffled, plus records outside the packing range; c10.pipe: real pipeline, 1/2/4 processors, pool capacity 1-6, sync or queueing output, random discard flags, release order from the PRNG. distinct = distinct case line; non-trivial = in-range packing input / at least one commit observed",
-    "corr_name": "Gen.KafkaPack defs = real packing functions; KafkaCommit.commitPacked / step? = Plugin.Commit + kgo marks / observed pipeline trace",
+    "rule": "c10.pack: boundary grid of (index, partition, offset, epoch) in and around the packing ranges plus random values of random bit length and full-range values; c10.marks: every commit order of every subset of 1..4 (thorough 5) records of one partition, then random record sets over 1-4 partitions committed in consumption order / with adjacent swaps / shuffled, plus records outside the packing range; c10.start: the real Plugin.Start against an in-process fake broker (ApiVersions + Metadata), real Assigned callback, real consume loops, real Commit: every topic list over three names up to length 4 (thorough 5), duplicates included, one record per configured name, then random lists / record sets; c10.pipe: real pipeline, 1/2/4 processors, pool capacity 1-6, sync or queueing output, random discard flags, release order from the PRNG. distinct = distinct case line; non-trivial = in-range packing input / at least one commit observed",
+    "corr_name": "Gen.KafkaPack defs = real packing functions; KafkaCommit.commitPacked / step? = Plugin.Commit + kgo marks / observed pipeline trace; topicID / commitStarted = Start's topic ids + Commit's Topics[index]",
     "trusted_base": [
         "go2lean (Go AST -> Lean translator); its output is compared with the real functions on every run (c10.pack)",
         "franz-go: MarkCommitOffsets keeps the maximum w.r.t. EpochOffset.Less, MarkedOffsets returns the heads, with AutoCommitMarks only marked heads are committed (exercised offline, not proved)",
@@ -273,11 +303,11 @@ CFG = {
     ],
     "assumptions": [
         "the broker delivers the records of a partition in strictly increasing offset order (enabling condition of `consume`)",
-        "config.Topics has no duplicate names (topic identity = index)",
+        "c10.marks / c10.pipe name a topic by its position in a duplicate-free list; duplicate names are covered by c10.start (real Start) and start_commit_own_topic",
         "mark_never_passes_unfinished_partial: acknowledgements arrive in consumption order per partition (e.g. one processor and an output that acknowledges in order)",
     ],
-    "chunk": 4000,
-    "timeout": 300,
+    "chunk": 1000,
+    "timeout": 600,
     "widen_seeds": 2,
     "widen_cases": 30000,
 }
